@@ -490,3 +490,59 @@ func ExpectedCode(kind string, ts TestSpec) string {
 	}
 	return DefaultCode(kind, ts)
 }
+
+// DefaultParams are the issue params the reference documentation (zconst) assigns to a built-in test.
+func DefaultParams(kind string, elemKind string, ts TestSpec) map[string]any {
+	conv := func(v Val, k string) any {
+		return reflect.ValueOf(v.Go()).Convert(GoType(k)).Interface()
+	}
+	switch ts.Name {
+	case "min", "max", "len":
+		return map[string]any{ts.Name: ts.N}
+	case "prefix", "suffix":
+		return map[string]any{ts.Name: ts.Str}
+	case "match":
+		return map[string]any{"match": ts.Str}
+	case "contains":
+		if kind == KSlice {
+			return map[string]any{"contained": conv(*ts.Arg, elemKind)}
+		}
+		return map[string]any{"contained": ts.Str}
+	case "oneof":
+		l := reflect.MakeSlice(reflect.SliceOf(GoType(kind)), 0, len(ts.Args))
+		for _, a := range ts.Args {
+			l = reflect.Append(l, reflect.ValueOf(conv(a, kind)))
+		}
+		return map[string]any{"one_of_options": l.Interface()}
+	case "eq", "lt", "lte", "gt", "gte", "after", "before":
+		return map[string]any{ts.Name: conv(*ts.Arg, kind)}
+	case "true":
+		return map[string]any{"eq": true}
+	case "false":
+		return map[string]any{"eq": false}
+	}
+	return nil
+}
+
+// GoType is the destination Go type of a primitive kind.
+func GoType(kind string) reflect.Type {
+	switch kind {
+	case KString:
+		return reflect.TypeOf("")
+	case KInt:
+		return reflect.TypeOf(int(0))
+	case KInt32:
+		return reflect.TypeOf(int32(0))
+	case KInt64:
+		return reflect.TypeOf(int64(0))
+	case KFloat32:
+		return reflect.TypeOf(float32(0))
+	case KFloat64:
+		return reflect.TypeOf(float64(0))
+	case KBool:
+		return reflect.TypeOf(false)
+	case KTime:
+		return reflect.TypeOf(time.Time{})
+	}
+	panic("GoType " + kind)
+}
